@@ -5,6 +5,9 @@ CONSTANTS Flows = {1}
           InitRules <- Rules_o
           RuleSets <- AllRules1
           Reloads = TRUE
+          Cfgs <- NoCfgs
+          InitCfg = 0
+          EffOf <- EffNone
           VerMod = 3
           Gaps = {1}
           MaxItems = 2
